@@ -56,6 +56,37 @@ std::string roundTrip(const std::string& f0, const std::string& caseJson) {
 	return ev.done() + "\n";
 }
 
+// f with the payload of block `id` replaced by `payload` (size table patched); empty if the file cannot be spliced
+std::string spliceBlock(const std::string& f, uint32_t id, const std::string& payload) {
+	HeaderInfo h = parseHeader(f);
+	if (!h.ok || id >= h.nblocks || payload.empty()) return "";
+	std::vector<uint32_t> sizes = h.sizes;
+	if (!h.hasSizes) {
+		// no size table (Oblivion): sizes of the blocks in front are measured by writing them
+		NifFile probe;
+		if (loadFromString(probe, f) != 0) return "";
+		sizes.clear();
+		for (uint32_t b = 0; b < h.nblocks; b++) {
+			auto o = probe.GetHeader().GetBlock<NiObject>(b);
+			if (!o) return "";
+			sizes.push_back((uint32_t) putBlock(o, probe.GetHeader()).bytes.size());
+		}
+	}
+	size_t start = h.hdrLen;
+	for (uint32_t b = 0; b < id; b++) start += sizes[b];
+	if (start + sizes[id] > f.size()) return "";
+	std::string g = f.substr(0, start) + payload + f.substr(start + sizes[id]);
+	if (h.hasSizes) {
+		// the size table is the only place in the header that holds all block sizes in a row
+		std::string pat((const char*) h.sizes.data(), h.sizes.size() * 4);
+		size_t p = f.find(pat);
+		if (p == std::string::npos || p + pat.size() > h.hdrLen || f.find(pat, p + 1) < h.hdrLen) return "";
+		uint32_t n = (uint32_t) payload.size();
+		memcpy(&g[p + 4 * id], &n, 4);
+	}
+	return g;
+}
+
 int cmdSynth(int argc, char** argv) {
 	if (argc < 7) return 2;
 	std::string outPath = argv[1];
@@ -118,6 +149,14 @@ int cmdSynth(int argc, char** argv) {
 			std::string f0 = saveToString(nif, false, false);
 			markPhase(2);
 			out += roundTrip(f0, caseOf(k));
+			// the same file with the synthesised block's payload replaced by the very bytes the generator served: an input
+			// that no build of this library wrote (what f0 holds went through one read and one write already)
+			std::string fg = spliceBlock(f0, si.blockId, si.served);
+			if (!fg.empty() && fg != f0) {
+				std::string cj = caseOf(k);
+				cj.insert(cj.size() - 1, ",\"input\":\"generator bytes\"");
+				out += roundTrip(fg, cj);
+			}
 		},
 		[&](size_t k, const std::string& why, FILE* out) {
 			// a crash / hang / OOM while handling a boosted instance that the library itself would reject is outside the
@@ -228,6 +267,14 @@ int cmdRun(int argc, char** argv) {
 			std::string f0 = saveToString(nif, false, false);
 			markPhase(2);
 			out += roundTrip(f0, caseOf(k));
+			// the same file with the synthesised block's payload replaced by the very bytes the generator served: an input
+			// that no build of this library wrote (what f0 holds went through one read and one write already)
+			std::string fg = spliceBlock(f0, si.blockId, si.served);
+			if (!fg.empty() && fg != f0) {
+				std::string cj = caseOf(k);
+				cj.insert(cj.size() - 1, ",\"input\":\"generator bytes\"");
+				out += roundTrip(fg, cj);
+			}
 		},
 		[&](size_t k, const std::string& why, FILE* out) {
 			int ph = lastCrashPhase();
@@ -270,6 +317,7 @@ int cmdProbe(int argc, char** argv) {
 							auto probe = [&](const std::vector<std::pair<int, long long>>& ov, SynthInfo& si) -> bool {
 								NifFile nif;
 								bool ok = false;
+								si.wantRoundTrip = true;
 								try {
 									ok = synthFileOv(nif, types[ti], kv.first, 2, seed, ov, &si);
 								}
@@ -290,6 +338,18 @@ int cmdProbe(int argc, char** argv) {
 									for (long long x = 0; x <= 21; x++) v.push_back(x);
 								return v;
 							};
+							size_t unstable = 0;
+							auto emit = [&](const std::vector<std::pair<int, long long>>& ov, const char* why) {
+								JArr a;
+								for (auto& q : ov) {
+									JArr e;
+									e.add((long long) q.first).add(q.second);
+									a.add(e);
+								}
+								JObj o;
+								o.add("type", types[ti]).add("ver", kv.first).add("mode", 2LL).raw("ov", a.done()).add("why", why);
+								po.line(o.done());
+							};
 							struct Found {
 								std::vector<std::pair<int, long long>> ov;
 								std::vector<int> kinds;
@@ -302,17 +362,19 @@ int cmdProbe(int argc, char** argv) {
 									SynthInfo si;
 									std::vector<std::pair<int, long long>> ov = {{int(k), x}};
 									if (!probe(ov, si)) continue;
-									if (!seen.insert(si.tape).second) continue;
+									bool fresh = seen.insert(si.tape).second;
+									if (si.roundTrip == 1 && unstable < 40) {
+										// what the library wrote for this instance does not re-encode to itself: always a configuration
+										unstable++;
+										emit(ov, "block-level round trip unstable");
+										if (fresh) level1.push_back({ov, si.scalarKinds});
+										continue;
+									}
+									if (!fresh) continue;
 									level1.push_back({ov, si.scalarKinds});
 									if (cap && kept >= cap) continue;
 									kept++;
-									JArr a;
-									JArr e;
-									e.add((long long) k).add(x);
-									a.add(e);
-									JObj o;
-									o.add("type", types[ti]).add("ver", kv.first).add("mode", 2LL).raw("ov", a.done());
-									po.line(o.done());
+									emit(ov, "new layout");
 								}
 							}
 							// second level: one later field on top of each first-level setting
@@ -328,18 +390,16 @@ int cmdProbe(int argc, char** argv) {
 										auto ov = f.ov;
 										ov.emplace_back(int(k), x);
 										if (!probe(ov, si)) continue;
-										if (!seen.insert(si.tape).second) continue;
+										bool fresh = seen.insert(si.tape).second;
+										if (si.roundTrip == 1 && unstable < 40) {
+											unstable++;
+											emit(ov, "block-level round trip unstable");
+											continue;
+										}
+										if (!fresh) continue;
 										if (cap && kept >= cap) continue;
 										kept++;
-										JArr a;
-										for (auto& q : ov) {
-											JArr e;
-											e.add((long long) q.first).add(q.second);
-											a.add(e);
-										}
-										JObj o;
-										o.add("type", types[ti]).add("ver", kv.first).add("mode", 2LL).raw("ov", a.done());
-										po.line(o.done());
+										emit(ov, "new layout");
 									}
 								}
 							}
